@@ -58,7 +58,9 @@ void editModel(NifFile& nif, uint64_t seed, bool geometryOnly) {
 	NiHeader& hdr = nif.GetHeader();
 	if (hdr.GetNumBlocks() > 2 && rng.below(2) == 0) {
 		uint32_t id = 1 + rng.below(hdr.GetNumBlocks() - 1);
-		if (id != nif.GetBlockID(nif.GetRootNode()))
+		// not a geometry data block: deleting one at header level leaves its shape with a dangling cached pointer inside the
+		// edited model itself (the hazard recorded as the C06 known finding), which says nothing about copy independence
+		if (id != nif.GetBlockID(nif.GetRootNode()) && !dynamic_cast<NiGeometryData*>(hdr.GetBlock<NiObject>(id)))
 			hdr.DeleteBlock(id);
 	}
 	nif.PrettySortBlocks();
